@@ -512,7 +512,15 @@ func VerifC06_sharedrow() {
 	r := tabular.NewRow()
 	r.Add(tabular.NewCell("shared"))
 	var wantGen []int
-	switch vfChoice("history", 3) {
+	wantCells := -1
+	switch vfChoice("history", 4) {
+	case 3: // added to this table, then to another one, then extended (which only grows the other table)
+		ht.AddHeaders("h")
+		ht.AddRow(r)
+		other.AddRow(r)
+		r.Add(tabular.NewCell("late-1")).Add(tabular.NewCell("late-2"))
+		wantGen = []int{0, 1}
+		wantCells = 3
 	case 0: // added to the other table (as its third row) before this one
 		other.AddRowItems("a")
 		other.AddRowItems("b")
@@ -540,12 +548,58 @@ func VerifC06_sharedrow() {
 		genLog = append(genLog, rowNum)
 		return template.HTMLAttr("k")
 	}, nil)
-	_, err := ht.Render()
+	out, err := ht.Render()
 	vfAssert(err == nil, "render-ok")
+	if wantCells >= 0 && err == nil {
+		// every cell of the row is there, whatever the table's column count says
+		toks, ok := vfTokenize(out)
+		vfAssert(ok, "well-formed-and-no-raw-markup-from-text")
+		n := 0
+		for _, tk := range toks {
+			if tk.tag && tk.name == "td" {
+				n++
+			}
+		}
+		vfAssert(n == wantCells, "one-td-per-cell-of-the-row")
+	}
 	vfAssert(len(genLog) == len(wantGen), "generator-called-once-per-emitted-row")
 	if len(genLog) == len(wantGen) {
 		for i := range genLog {
 			vfAssert(genLog[i] == wantGen[i], "generator-row-numbers")
 		}
 	}
+}
+
+// VerifC06_nested: wrappers are independent documents also when they carry the same template name and
+// one is rendered while the other's render is under way (from inside its row-class generator).
+func VerifC06_nested() {
+	a, b := New(), New()
+	name := []string{"", "shared"}[vfChoice("name", 2)]
+	a.TemplateName, b.TemplateName = name, name
+	a.AddHeaders("a1", "a2")
+	a.AddRowItems("x", vfString("t", 1, vfASCIInoNUL))
+	a.AddRowItems("y")
+	b.AddHeaders("b1")
+	b.AddRowItems("other")
+	b.SetRowClassGenerator(func(rowNum int, ctx interface{}) template.HTMLAttr { return template.HTMLAttr("bb") }, nil)
+	if vfChoice("b-first", 2) == 1 {
+		b.Render()
+	}
+	a.SetRowClassGenerator(func(rowNum int, ctx interface{}) template.HTMLAttr { return template.HTMLAttr("k") }, nil)
+	refA, errA := a.Render()
+	refB, errB := b.Render()
+	vfAssert(vfAnd(errA == nil, errB == nil), "render-ok")
+	inner := ""
+	var innerErr error
+	a.SetRowClassGenerator(func(rowNum int, ctx interface{}) template.HTMLAttr {
+		if rowNum == 1 {
+			inner, innerErr = b.Render()
+		}
+		return template.HTMLAttr("k")
+	}, nil)
+	outA, errA2 := a.Render()
+	vfAssert(vfAnd(errA2 == nil, innerErr == nil), "render-ok")
+	vfAssert(outA == refA, "nested-render-leaves-outer-document-alone")
+	vfAssert(inner == refB, "nested-render-is-its-own-document")
+	vfObserveStr("out", outA)
 }
